@@ -326,7 +326,7 @@ func c08EnvPreimage(t *testing.T) {
 	}
 	a.r.Outcome("preimage:distinct")
 	a.r.Note("shard %d/%d: %d distinct pre-images among the %d triples of its hash bucket (%d triples enumerated)", a.shard, a.nsh, len(first), a.r.Executions, idx)
-	a.r.Sample(map[string]any{"triple": c08Triple{"ab", []byte("c"), nil}.String(), "vs": c08Triple{"a", []byte("bc"), nil}.String(), "note": "same concatenation, must have different pre-images"})
+	a.sample(1, "", map[string]any{"triple": c08Triple{"ab", []byte("c"), nil}.String(), "vs": c08Triple{"a", []byte("bc"), nil}.String(), "note": "same concatenation, must have different pre-images"})
 }
 
 // ---------- b. acceptance cross product ----------
@@ -334,7 +334,6 @@ func c08EnvPreimage(t *testing.T) {
 func c08EnvCross(t *testing.T) {
 	a := c08New(t, "envelope-triples")
 	defer a.flush()
-	sampled := 0
 	for _, typ := range c08Types {
 		full := typ == crypto.Ed25519 || vrep.Thorough()
 		ds, ts, ps := c08CrossAlphabet(full)
@@ -394,9 +393,8 @@ func c08EnvCross(t *testing.T) {
 						if why := c08SameAsSealed(g, k, s); why != "" {
 							a.r.Violate("accepted-envelope-decodes-differently", fmt.Sprintf("%s (%s): honest envelope %v accepted but %s", g.consumer, k.Name, s, why), rp)
 						}
-						if sampled < 3 && typ == crypto.Ed25519 {
-							sampled++
-							a.r.Sample(map[string]any{"sealed": s.String(), "key": k.Name, "consumed_as": fmt.Sprintf("each of %d triples", len(all)), "envelope_len": len(wire)})
+						if typ == crypto.Ed25519 && len(s.P) > 0 {
+							a.sample(1, "", map[string]any{"sealed": s.String(), "key": k.Name, "consumed_as": fmt.Sprintf("each of %d triples", len(all)), "envelope_len": len(wire)})
 						}
 					case same:
 						a.baseline("%s rejects the honest envelope %v sealed by %s: %v", g.consumer, s, k.Name, g.err)
@@ -545,7 +543,7 @@ func c08EnvForeign(t *testing.T) {
 				})
 			}
 			if ki == 0 {
-				a.r.Sample(map[string]any{"artefact": ar.name, "key": k.Name, "sealed_domain": ar.domain, "asked_domains": domains, "envelope": c08Hex(wire)})
+				a.sample(1, "", map[string]any{"artefact": ar.name, "key": k.Name, "sealed_domain": ar.domain, "asked_domains": domains, "accepted_only_for": ar.domain, "envelope": c08Hex(wire)})
 			}
 		}
 	}
